@@ -51,3 +51,76 @@ pub fn ws_batch(a: &Value) -> Value {
         json!({"scenario":"c12_ws_batch","observed":obs,"violation":violation,"why": if violation {"batch completed with a list of the wrong length or an entry holding another entry's answer"} else {""}})
     })
 }
+
+
+/// HTTP client against a raw TCP server that answers a batch of n with responses whose ids are first + offset_j.
+/// args {n, offsets:[..]}  or  {n, k, start, r0..} (solver model: offsets = r_j - start)
+pub fn http_batch(a: &Value) -> Value {
+    use jsonrpsee_http_client::HttpClientBuilder;
+    use tokio::io::{AsyncReadExt, AsyncWriteExt};
+    let n = u(a, "n") as usize;
+    let offs: Vec<u64> = match a.get("offsets").and_then(|o| o.as_array()) {
+        Some(v) => v.iter().map(|x| x.as_u64().unwrap()).collect(),
+        None => {
+            let (k, start) = (u(a, "k") as usize, u(a, "start"));
+            (0..k).map(|j| u(a, &format!("r{j}")).wrapping_sub(start)).collect()
+        }
+    };
+    let rt = tokio::runtime::Builder::new_multi_thread().worker_threads(2).enable_all().build().unwrap();
+    rt.block_on(async move {
+        let listener = tokio::net::TcpListener::bind("127.0.0.1:0").await.unwrap();
+        let addr = listener.local_addr().unwrap();
+        let offs2 = offs.clone();
+        tokio::spawn(async move {
+            loop {
+                let Ok((mut sock, _)) = listener.accept().await else { break };
+                let offs = offs2.clone();
+                tokio::spawn(async move {
+                    let mut buf = Vec::new();
+                    let mut tmp = [0u8; 4096];
+                    loop {
+                        let Ok(m) = sock.read(&mut tmp).await else { return };
+                        if m == 0 { return; }
+                        buf.extend_from_slice(&tmp[..m]);
+                        let txt = String::from_utf8_lossy(&buf).to_string();
+                        if let Some(h) = txt.find("\r\n\r\n") {
+                            let cl: usize = txt[..h].lines().find_map(|l| l.to_ascii_lowercase().strip_prefix("content-length:").map(|v| v.trim().parse().unwrap_or(0))).unwrap_or(0);
+                            if buf.len() >= h + 4 + cl {
+                                let body: Value = serde_json::from_slice(&buf[h + 4..h + 4 + cl]).unwrap_or(Value::Null);
+                                let reply = match body.as_array() {
+                                    Some(arr) if !arr.is_empty() => {
+                                        let first = arr[0]["id"].as_u64().unwrap_or(0);
+                                        Value::Array(offs.iter().map(|o| { let id = first.wrapping_add(*o); json!({"jsonrpc":"2.0","id":id,"result":format!("answer-for-{id}")}) }).collect())
+                                    }
+                                    _ => json!({"jsonrpc":"2.0","id":body["id"],"result":0}),
+                                };
+                                let out = reply.to_string();
+                                let _ = sock.write_all(format!("HTTP/1.1 200 OK\r\ncontent-type: application/json\r\ncontent-length: {}\r\n\r\n{}", out.len(), out).as_bytes()).await;
+                                buf.clear();
+                            }
+                        }
+                    }
+                });
+            }
+        });
+        let c = HttpClientBuilder::default().request_timeout(std::time::Duration::from_secs(3)).build(format!("http://{addr}")).unwrap();
+        // spend one id so the batch does not start at 0
+        let _ = c.request::<Value, _>("warmup", rpc_params![]).await;
+        let mut b = BatchRequestBuilder::new();
+        for _ in 0..n { b.insert("m", rpc_params![]).unwrap(); }
+        let res = c.batch_request::<String>(b).await;
+        let (violation, obs) = match res {
+            Err(e) => (false, json!({"outcome":"Err","err":e.to_string().chars().take(120).collect::<String>()})),
+            Ok(r) => {
+                let entries: Vec<Result<String, i32>> = r.into_iter().map(|x| x.map_err(|e| e.code())).collect();
+                let first = 1u64; // ids: warmup used 0
+                let mut bad = entries.len() != n;
+                for (i, e) in entries.iter().enumerate() {
+                    if let Ok(v) = e { if *v != format!("answer-for-{}", first + i as u64) { bad = true; } }
+                }
+                (bad, json!({"outcome":"Ok","entries":entries.iter().map(|e| match e { Ok(v) => v.clone(), Err(c) => format!("Err({c})") }).collect::<Vec<_>>()}))
+            }
+        };
+        json!({"scenario":"c12_http_batch","observed":obs,"violation":violation,"why": if violation {"HTTP batch completed with a list of the wrong length or an entry holding another entry's answer"} else {""}})
+    })
+}
